@@ -25,8 +25,8 @@ PROPS = {
     },
 
     'C02': {
-        'lean_modules': ['C02', 'ArithTieCuckoo'],
-        'required_theorems': ['tie_cuckooFirstIndex', 'tie_cuckooSecondIndex', 'tie_cuckooKickIndexMem', 'tie_cuckooKickIndexRedis', 'C02_no_false_negative', 'C02_insert_ok_stored', 'C02_insert_preserves_lookup', 'C02_alt_involutive_pow2',
+        'lean_modules': ['C02', 'ArithTieCuckoo', 'C02Concrete'],
+        'required_theorems': ['C02_no_false_negative_concrete', 'C02_inserted_element_found', 'C02_positions_valid', 'C02_positions_valid_any_n', 'C02_fpl_valid_iff', 'C02_concrete_npow2_loses_element', 'tie_cuckooFirstIndex', 'tie_cuckooSecondIndex', 'tie_cuckooKickIndexMem', 'tie_cuckooKickIndexRedis', 'C02_no_false_negative', 'C02_insert_ok_stored', 'C02_insert_preserves_lookup', 'C02_alt_involutive_pow2',
                               'C02_alt_not_involutive_npow2', 'C02_no_kick_any_n_partial', 'C02_npow2_kick_loses_element'],
         'suites': ['cuckoo', 'conc'],
         'race_suites': ['conc'],
@@ -51,8 +51,8 @@ PROPS = {
                         'Redis sketches narrower than gopher-lua\'s unpack limit (finding D24 otherwise)'],
     },
     'C04': {
-        'lean_modules': ['C04', 'C04E2E'],
-        'required_theorems': ['C04_end_to_end_mem', 'C04_end_to_end_redis', 'C04_size', 'C04_nodup', 'C04_count_bounds', 'C04_unreported_light', 'C04_exact_without_collisions',
+        'lean_modules': ['C04', 'C04E2E', 'C04Exact'],
+        'required_theorems': ['C04_end_to_end_exact_mem', 'C04_end_to_end_exact_redis', 'C04_end_to_end_exact_mem_values', 'C04_exact_iff_prefixFree', 'C04_exact_needs_noCollision', 'C04_k_zero_model_differs', 'C04_end_to_end_mem', 'C04_end_to_end_redis', 'C04_size', 'C04_nodup', 'C04_count_bounds', 'C04_unreported_light', 'C04_exact_without_collisions',
                               'C04_values_sorted', 'C04_mem_refines_spec', 'C04_redis_refines_spec'],
         'suites': ['topk', 'conc', 'redisconc'],
         'race_suites': ['conc'],
@@ -63,8 +63,8 @@ PROPS = {
                         'element names valid UTF-8 without protocol separators in the correspondence suite'],
     },
     'C05': {
-        'lean_modules': ['C05', 'ArithTieHLL'],
-        'required_theorems': ['tie_hllRegisterIndex', 'tie_hllStoredValueRedis', 'C05_update_ok_iff', 'C05_registers_confined', 'C05_index_range'],
+        'lean_modules': ['C05', 'ArithTieHLL', 'C05Est'],
+        'required_theorems': ['C05_estimate_independent_of_n_hashes', 'C05_estimate_window', 'C05_cannot_track', 'C05_window_16384', 'C05_run_total_of_large', 'C05_update_panic_iff', 'C05_update_can_fail_le_65', 'tie_hllRegisterIndex', 'tie_hllStoredValueRedis', 'C05_update_ok_iff', 'C05_registers_confined', 'C05_index_range'],
         'suites': ['hllacc', 'hll', 'redisconc'],
         'level': 'proof',
         'explanation': 'The accuracy clause is FALSE of the pinned code (finding D4: the register index is the rank and the stored value is hash bits); what is proved is the exact characterisation of what the code computes '
@@ -105,8 +105,8 @@ PROPS = {
         'assumptions': ['no counter overflow (as C03)'],
     },
     'C13': {
-        'lean_modules': ['C13'],
-        'required_theorems': ['C13_wf_preserved', 'C13_length_exact', 'C13_capacity', 'C13_remove_present', 'C13_remove_absent', 'C13_empty_after_all_removed'],
+        'lean_modules': ['C13', 'C02Concrete'],
+        'required_theorems': ['C13_length_exact_concrete', 'C13_wf_preserved', 'C13_length_exact', 'C13_capacity', 'C13_remove_present', 'C13_remove_absent', 'C13_empty_after_all_removed'],
         'suites': ['cuckoo', 'conc'],
         'race_suites': ['conc'],
         'level': 'proof',
@@ -130,7 +130,7 @@ PROPS = {
         'level': 'proof',
         'explanation': 'Lean: a decoder written in the read-n-bytes monad that consumes a whole image rejects every strict prefix (generic theorem), instantiated for the five formats via the C11 round trip. '
                        'Suite `persist` feeds EVERY strict prefix of each sampled binary image and JSON document to ReadFrom/Import (must error, not panic, not succeed) and compares the decoders on truncated input with the model; '
-                       'the regenerated decoder table checks that every fallible read has its error returned before the receiver is assigned.',
+                       'the regenerated decoder table checks that every fallible read has its error tested and returned by the next statement (it does NOT say that the receiver is untouched: HyperLogLog, CountMinSketch and CuckooFilter.ReadFrom assign header fields before their last fallible read, so a failed ReadFrom returns an error AND may leave the receiver modified - the property as stated (error, no panic, no reported success) holds; see DESIGN section 4 C18).',
         'assumptions': ['encoding/json rejects every strict prefix of a marshalled object (standard library, exhaustively tested per sampled document)'],
     },
 
@@ -149,8 +149,8 @@ PROPS = {
         'timeout': 1800,
     },
     'C09': {
-        'lean_modules': ['C09'],
-        'required_theorems': ['C09_attach_roundtrip_bloom', 'C09_attach_roundtrip_bloom_params', 'C09_attach_roundtrip_cuckoo', 'C09_attach_roundtrip_cms',
+        'lean_modules': ['C09', 'C09Stable'],
+        'required_theorems': ['C09_attach_any_time_cms', 'C09_attach_any_time_hll', 'C09_attach_any_time_bloom', 'C09_attach_any_time_cuckoo', 'C09_attach_any_time_topk', 'C09_attach_stable', 'C09_attach_stable_cuckoo_length', 'C09_attach_roundtrip_bloom', 'C09_attach_roundtrip_bloom_params', 'C09_attach_roundtrip_cuckoo', 'C09_attach_roundtrip_cms',
                               'C09_attach_roundtrip_hll', 'C09_attach_roundtrip_topk', 'C09_other_keys_irrelevant'],
         'suites': ['reattach', 'redistie', 'cuckoo', 'blind', 'redisconc'],
         'level': 'proof',
@@ -182,8 +182,8 @@ PROPS = {
         'assumptions': ['float parameters positive and finite; Top-K sketch non-nil (NewTopK with accuracy >= 1 builds no sketch)'],
     },
     'C19': {
-        'lean_modules': ['C19'],
-        'required_theorems': ['C19_disjoint', 'C19_keys_nodup', 'C19_noninterference', 'C19_noninterference_n', 'C19_import_new_keys', 'C19_frame_cms_update', 'C19_keysOfKind_cuckoo'],
+        'lean_modules': ['C19', 'C19Import'],
+        'required_theorems': ['C19_import_cms_untouched', 'C19_import_hll_untouched', 'C19_import_topk_untouched', 'C19_import_cuckoo_untouched', 'C19_import_cms_fresh', 'C19_frame_cms_equals', 'C19_frame_hll_equals', 'C19_disjoint', 'C19_keys_nodup', 'C19_noninterference', 'C19_noninterference_n', 'C19_import_new_keys', 'C19_frame_cms_update', 'C19_keysOfKind_cuckoo'],
         'suites': ['isolation', 'redisconc'],
         'level': 'proof',
         'explanation': 'Lean: key names of every structure transcribed; handles with distinct 16-letter base keys have disjoint key sets; operations supported on disjoint key sets do not interfere under ANY interleaving of any number of structures (each observes its solo run), an import under new keys changes no other key. '
@@ -193,8 +193,8 @@ PROPS = {
     },
 
     'C07': {
-        'lean_modules': ['C07', 'C07Lock'],
-        'required_theorems': ['C07_serializable', 'C07_program_order_preserved', 'C07_no_lost_update', 'C07_order_independent_bloom',
+        'lean_modules': ['C07', 'C07Lock', 'C07Merge'],
+        'required_theorems': ['C07_self_merge_linearizable', 'C07_self_merge_any_schedule', 'C07_self_merge_all_applied', 'C07_cross_merge_h_side', 'C07_cross_merge_g_side', 'C07_two_phase_needs_commutation', 'C07_overlapping_self_merges_not_atomic', 'C07_serializable', 'C07_program_order_preserved', 'C07_no_lost_update', 'C07_order_independent_bloom',
                               'C07_order_independent_cms', 'C07_order_independent_hll', 'C07_lock_discipline', 'C07_lock_table_covers'],
         'suites': ['conc'],
         'race_suites': ['conc'],
